@@ -12,8 +12,9 @@ Species are abstract objects with a class id (Species.__eq__/__hash__ assumed to
 - bounded check in C04/C09); a reaction has <= 3 reactants and <= 5 products (property quantifier)."""
 from __future__ import annotations
 import z3
-from pyvc.context import VerifContext
-from pyvc.sym import SList, FList, SObj, SInt, SBool, ObjCodec, Unsupported, Sym
+from pyvc.context import VerifContext, LoopSpec
+from pyvc.sym import SList, FList, SObj, SInt, SBool, ObjCodec, IntCodec, Unsupported, Sym
+from pyvc.dictmodel import GhostMap
 from pyvc.setmodel import SSet
 from pyvc.ops import wrap_term
 from pyvc import smt
@@ -71,6 +72,60 @@ class NetCtx(VerifContext):
         self.defs.define(PSET, lambda L, n: z3.If(n <= 0, EMPTY, union(PSET(L, n - 1), classes(z3.Select(L, n - 1), np_, pcls, MAXP))), True)
         self.axioms = self.defs.axioms()
         self.spec_defined = {"RSET", "PSET"}
+
+    # ---- filter comprehensions of remove_reaction as loops under contract (ghost: gq = source position of every kept element)
+    QR = "Network.remove_reaction"
+
+    def install_filter_loop(self, target, keep):
+        """keep(j): spec predicate 'position j of the old list survives the filter' (a z3 term builder over an Int term)"""
+        PR = ("C14",)
+        self.keep = keep
+        self.spec_names.update(keep=lambda j: wrap_term(keep(j.t if isinstance(j, SInt) else z3.IntVal(j))), GhostMap=GhostMap)
+        inv = [
+            ("length(_comp) == length(gq) and length(_comp) <= _i", PR),
+            ("forall(lambda k: implies(0 <= k and k < length(_comp), 0 <= gq[k] and gq[k] < _i and keep(gq[k]) and _comp[k] == L0g[gq[k]]))", PR),
+            ("forall(lambda k: implies(0 <= k and k + 1 < length(gq), gq[k] < gq[k + 1]))", PR),
+            ("forall(lambda j: implies(0 <= j and j < _i and keep(j), 0 <= grpos[j] and grpos[j] < length(_comp) and gq[grpos[j]] == j))", PR),
+        ]
+        self.loop_specs[(self.QR, target)] = LoopSpec("loop:filter", "_i", inv, modifies=("gq", "grpos"), types={"_comp": "list[obj:Reaction]"}, ghost_init=self.g_init)
+        self.stmt_hooks[(self.QR, "_comp.append(*")] = self.h_append
+        self.stmt_hooks[(self.QR, "self._reactants = *")] = self.h_stash
+        self.final_ghost = None
+
+    def g_init(self, interp, env):
+        fenv = env.parent if env.parent is not None else env
+        fenv.set("gq", self.to_slist(interp, [], IntCodec()))
+        fenv.set("grpos", GhostMap())
+        fenv.set("L0g", SList(ObjCodec("Reaction"), (self.L0,), self.n0))
+
+    def h_append(self, interp, env):
+        from pyvc import models
+        i = env.lookup("_i")
+        models.slist_method(interp, env.lookup("gq"), "append", [i], {})
+        env.lookup("grpos").put(i, env.lookup("_comp").length - 1)
+
+    def h_stash(self, interp, env):
+        try:
+            self.final_ghost = (env.lookup("gq"), env.lookup("grpos"))
+        except Exception:
+            self.final_ghost = None
+
+    def fresh_custom(self, interp, name, v, spec, env):
+        if isinstance(v, GhostMap):
+            return GhostMap.fresh(interp, name)
+        if isinstance(v, (SObj, tuple)) or v is None:
+            return v
+        return super().fresh_custom(interp, name, v, spec, env)
+
+    def obj_equals(self, interp, a, b):
+        """Reaction.__eq__ between abstract reactions: an abstract reflexive relation (its properties are the subject of identity.py)"""
+        if isinstance(a, SObj) and isinstance(b, SObj) and a.cls == b.cls == "Reaction":
+            if interp.spec_mode:
+                return wrap_term(a.id == b.id)          # in a contract clause == on reactions is identity of the abstract objects
+            interp.assume(REQ(a.id, a.id))
+            interp.assume(REQ(b.id, b.id))
+            return wrap_term(REQ(a.id, b.id))
+        raise Unsupported("== on these abstract objects")
 
     def obj_isinstance(self, interp, v, tp):
         from naunet.reactions.reaction import Reaction
@@ -238,6 +293,10 @@ def entry_source_sink(it):
     it.prove(z3.And(net._reactants.arr == R0, net._products.arr == P0), "source-sink/frame-caches-unchanged", P)
 
 
+def term_of_ghost(gm, j):
+    return z3.Select(gm.arr, j)
+
+
 def entry_remove(it):
     """Network.remove_reaction.  Paths: (0) an integer position k of any sign into a list of any length; (1) an argument of
     another type.  ensures (0): out of range raises IndexError and changes nothing; otherwise the held list is the old one without
@@ -258,9 +317,13 @@ def entry_remove(it):
     net.reaction_list = SList(ObjCodec("Reaction"), (L0,), nL)
     net._skipped_reactions = SList(ObjCodec("Reaction"), (Sk0,), nSk)
     net._reactants, net._products = SSet("Species", R0), SSet("Species", P0)
-    which = it.choose(2, "argument")
+    which = it.choose(3, "argument")
     k0 = z3.Int("k")
-    arg = SInt(k0) if which == 0 else 1.5
+    arg = SInt(k0) if which == 0 else (1.5 if which == 1 else SObj("Reaction", z3.Int("r_arg")))
+    if which == 2:
+        it.ctx.L0, it.ctx.n0 = L0, nL
+        rid = arg.id
+        it.ctx.install_filter_loop("r", lambda j: z3.Not(REQ(z3.Select(L0, j), rid)))
     raised = None
     try:
         it.call_function(Network.remove_reaction, [net, arg], {})
@@ -269,6 +332,30 @@ def entry_remove(it):
     Lf, Skf = net.reaction_list, net._skipped_reactions
     unchanged = z3.And(Lf.length == nL, Lf.arrays[0] == L0, net._reactants.arr == R0, net._products.arr == P0)
     it.prove(z3.And(Skf.length == nSk, Skf.arrays[0] == Sk0), "remove/skipped-list-untouched", P)
+    if which == 2:
+        # a Reaction instance: every held reaction that compares equal to it goes, the others stay in order
+        if raised is not None:
+            it.fail("remove/instance/no-exception", P, f"{raised!r}")
+            return
+        g = it.ctx.final_ghost
+        if g is None or not isinstance(Lf, SList):
+            it.fail("remove/instance/filtered-list-under-contract", P, f"{Lf!r}")
+            return
+        gq, grpos = g
+        A, GQ = Lf.arrays[0], gq.arrays[0]
+        keep = it.ctx.keep
+        kk, jj = z3.Ints("kk jj")
+        it.prove(z3.And(Lf.length == gq.length, Lf.length <= nL), "remove/instance/ghost-source-positions", P)
+        it.prove(z3.ForAll([kk], z3.Implies(z3.And(0 <= kk, kk < Lf.length), z3.And(0 <= z3.Select(GQ, kk), z3.Select(GQ, kk) < nL, keep(z3.Select(GQ, kk)),
+                                                                                  z3.Select(A, kk) == z3.Select(L0, z3.Select(GQ, kk))))),
+                 "remove/instance/every-remaining-reaction-was-held-and-differs-from-the-argument", P)
+        it.prove(z3.ForAll([kk], z3.Implies(z3.And(0 <= kk, kk + 1 < Lf.length), z3.Select(GQ, kk) < z3.Select(GQ, kk + 1))), "remove/instance/order-kept-no-repeats", P)
+        gp = lambda j: term_of_ghost(grpos, j)
+        it.prove(z3.ForAll([jj], z3.Implies(z3.And(0 <= jj, jj < nL, keep(jj)), z3.And(0 <= gp(jj), gp(jj) < Lf.length, z3.Select(GQ, gp(jj)) == jj))),
+                 "remove/instance/every-reaction-that-differs-from-the-argument-remains", P)
+        it.prove(net._reactants.arr == RSET(A, Lf.length), "remove/wf-reactant-cache-follows-the-remaining-reactions", P)
+        it.prove(net._products.arr == PSET(A, Lf.length), "remove/wf-product-cache-follows-the-remaining-reactions", P)
+        return
     if which == 1:
         it.prove(z3.BoolVal(isinstance(raised, TypeError)), "remove/other-argument-types-are-refused", P, detail=f"{raised!r}")
         it.prove(unchanged, "remove/refusal-changes-nothing", P)
